@@ -1,0 +1,33 @@
+//go:build verif
+
+package prunner
+
+import (
+	"sync/atomic"
+
+	"github.com/gofrs/uuid"
+)
+
+// Instrumentation for runtime verification (only compiled with the "verif" build tag).
+
+// verifEventHook is called with the kind of event, the job id and the phase ("enter" / "exit")
+var verifEventHook atomic.Value // of func(kind string, id uuid.UUID, phase string)
+
+// VerifSetEventHook registers a callback for internal events (delay-handler enter/exit, cancel-spawned).
+// The callback is called with the runner lock held or not held depending on the event, so it must not call back into the runner.
+func VerifSetEventHook(f func(kind string, id uuid.UUID, phase string)) {
+	verifEventHook.Store(f)
+}
+
+func (r *PipelineRunner) verifEvent(kind string, id uuid.UUID) func() {
+	f, _ := verifEventHook.Load().(func(kind string, id uuid.UUID, phase string))
+	if f == nil {
+		return verifNoop
+	}
+	f(kind, id, "enter")
+	return func() {
+		f(kind, id, "exit")
+	}
+}
+
+func verifNoop() {}
